@@ -34,8 +34,8 @@ def oer_features(t, env):
         k = x["k"]
         if k == "INTEGER":
             c = x.get("cons")
-            if c and not c["ext"] and c["lo"] is not None and c["hi"] is not None and (c["hi"] >= (1 << 64) or c["lo"] < -(1 << 64)):
-                out.add("int_bound_beyond_64")           # F93
+            if c and not c["ext"] and c["lo"] is not None and c["hi"] is not None and c["lo"] >= 0 and c["hi"] >= (1 << 64):
+                out.add("int_bound_beyond_64")           # F93: `(unsigned long long)ub <= ...` wraps
         if k == "SET": out.add("SET")
         if k == "SEQUENCE" and x.get("ext") is not None:
             if not x["comps"]: out.add("empty_extensible_sequence")          # F120
@@ -43,14 +43,63 @@ def oer_features(t, env):
     return out
 
 def oer_skip(syn, t, env, skipped):
-    """-> finding id or None"""
-    feats = gfind.features(t, env)
+    """-> finding id or None.  (F36 of c01.skip_region — INTEGER_compare on non-minimal contents — is
+    irrelevant here: bytes and dumped values are compared, never `compare`; F34 is fixed in /repo.)"""
+    feats = oer_features(t, env)
     fid = None
     if "SET" in feats: fid = "F32"
-    elif "int_bound_beyond_64" in oer_features(t, env): fid = "F93"
-    elif "empty_extensible_sequence" in oer_features(t, env): fid = "F120"
+    elif "int_bound_beyond_64" in feats: fid = "F93"
+    elif "empty_extensible_sequence" in feats: fid = "F120"
     if fid: skipped[fid] += 1
     return fid
+
+# Proposed KNOWN_FINDINGS entries (reported to the coordinator); used until they are merged.
+PROPOSED_FINDINGS = [
+ {"id": "F120", "property": "C02", "properties": ["C02", "C01"], "status": "known",
+  "what": "a SEQUENCE whose component list is just the extension marker (A ::= SEQUENCE { ... }) is emitted with "
+          "first_extension = -1, i.e. as a non-extensible type: SEQUENCE_encode_oer writes no preamble at all (empty encoding) "
+          "where X.696 16.2 requires one preamble octet holding the extension bit (00); a later version of the type that adds "
+          "components cannot be told apart from this one",
+  "witness": {"module": "M DEFINITIONS AUTOMATIC TAGS ::= BEGIN A ::= SEQUENCE { ... } END", "type": "A",
+              "op": "enc oer (seq)", "expect": "^ok -$"},
+  "matcher": "syntax == oer and the type contains a SEQUENCE with an extension marker and no components"},
+ {"id": "F121", "property": "C02", "properties": ["C02", "C01", "C03"], "status": "known",
+  "what": "SEQUENCE_decode_oer tests the extension bit in phase 2 as ((uint8_t *)preamble->buffer)[0] & 0x80 after "
+          "asn_get_few_bits has advanced preamble->buffer: for an extensible SEQUENCE with >= 8 OPTIONAL/DEFAULT root "
+          "components (preamble > 1 octet) it reads bit 8 of the *second* preamble octet (the presence bit of the 8th optional "
+          "component) instead of the extension bit: own encodings are answered RC_WMORE or decoded without their extension additions",
+  "witness": {"module": "M DEFINITIONS AUTOMATIC TAGS ::= BEGIN T ::= SEQUENCE { a BOOLEAN OPTIONAL, b BOOLEAN OPTIONAL, c BOOLEAN OPTIONAL, "
+                        "d BOOLEAN OPTIONAL, e BOOLEAN OPTIONAL, f BOOLEAN OPTIONAL, g BOOLEAN OPTIONAL, h BOOLEAN OPTIONAL, ... } END",
+              "type": "T", "op": "rt oer (seq (h (bool t)))", "expect": "^ok 0080ff rc=more"},
+  "matcher": "syntax == oer and stage == decode and the type contains an extensible SEQUENCE with >= 8 OPTIONAL/DEFAULT root components"},
+ # F93 exists (property C09, table level); proposed addition: properties [C09, C02] + this byte-level witness
+ {"id": "F93", "property": "C09", "properties": ["C09", "C02"], "status": "known",
+  "what": "OER width tests cast ub to unsigned long long: INTEGER (0..18446744073709551616) -> {4,1} (X.696 10.2: variable length)",
+  "witness": {"module": "M DEFINITIONS ::= BEGIN T ::= INTEGER (0..18446744073709551616) END", "type": "T",
+              "op": "enc oer (int 5)", "expect": "^ok 00000005$"},
+  "matcher": "syntax == oer and the type contains an INTEGER with lb >= 0 and ub >= 2^64 (X.696 10.4 a: 01 05)"},
+]
+
+def replay_proposed(ctx):
+    """replays the witnesses of the proposed entries that are not (yet) among ctx.findings with a module witness"""
+    import re
+    have = {f["id"] for f in ctx.findings if f.get("witness", {}).get("op")}
+    for f in PROPOSED_FINDINGS:
+        if f["id"] in have: continue
+        if hasattr(ctx, "assumptions"):
+            ctx.assumptions.append(f"finding {f['id']} (C02 witness) is not in KNOWN_FINDINGS.json yet; using the proposed entry embedded in vlib/props/c02_oer.py")
+        w = f["witness"]
+        names = re.findall(r"(\w+)\s*::=", w["module"].split("BEGIN", 1)[1])
+        b = bundle.Bundle("w" + f["id"], w["module"], names)
+        try:
+            exe = b.build()
+            outs, _ = ctx.run_c_bisect(exe, [f"@{w['type']} {w['op']}"])
+            if re.search(w["expect"], outs[0] or ""): ctx.known(f)
+            else: ctx.log(f"note: finding {f['id']} no longer reproduces on its witness ({(outs[0] or '')[:120]})")
+        except Exception as e:
+            ctx.log(f"note: witness of {f['id']} could not be built: {str(e)[:120]}")
+        finally:
+            b.cleanup()
 
 # ------------------------------------------------------------------ fixed module of OER boundary shapes
 def oer_shapes_module(rng, quick=True):
@@ -62,7 +111,7 @@ def oer_shapes_module(rng, quick=True):
               (0, P(64) - 1), (0, P(64)), (1, P(64)), (255, 255), (256, 256), (P(32), P(32)),
               (-P(7), P(7) - 1), (-P(7) - 1, P(7) - 1), (-P(7), P(7)), (-P(15), P(15) - 1), (-P(15) - 1, 0), (-1, P(15)),
               (-P(31), P(31) - 1), (-P(31) - 1, P(31) - 1), (-P(31), P(31)), (-P(63), P(63) - 1), (-P(63) - 1, P(63) - 1),
-              (-P(63), P(63)), (-1, P(64) - 1), (-1, 0), (-1, -1), (-P(64), -1)]
+              (-P(63), P(63)), (-1, P(64) - 1), (-1, 0), (-1, -1), (-P(64), -1), (-1, P(64)), (-P(64) - 1, P(64))]
     for i, (lo, hi) in enumerate(ranges):
         vs = {lo, hi, min(lo + 1, hi), max(hi - 1, lo), (lo + hi) // 2}
         for e in (0, 1, -1, 127, 128, 255, 256, -128, -129, 65535, 65536, P(31), P(32) - 1, P(32), P(63) - 1, P(63), -P(63), -P(31) - 1):
@@ -211,6 +260,7 @@ def set_to_sequence(t):
     return t
 
 def run_oer(ctx):
+    replay_proposed(ctx)
     nb = 6 if ctx.quick else 40
     nvals = 8 if ctx.quick else 25
     mods = c01.gen_bundles(ctx, nb)
@@ -250,6 +300,9 @@ def run_oer(ctx):
         dis = keep
         ctx.cov["correspondence"]["oer:" + m["name"]] = dict(st)
         allst.update(st); alldis += dis
+    compared = allst["oer_enc_same"] + allst["oer_enc_diff"] + allst["oer_enc_F55"]
+    allst["oer_enc_total"] = compared + allst["skipped_region"] + allst["unsupported_type"]
+    allst["oer_enc_compared"] = compared
     ctx.cov["predicate"]["oer_bytes_eq_reference"] = dict(allst)
     ctx.cov["predicate"]["oer_skipped_known_regions"] = dict(skipped)
     for d in alldis[:5]:
